@@ -1,3 +1,4 @@
+(* EXTRACT-Z: c13 run_c13 *)
 (* Executable entry point for the C13 correspondence (and the accessor half of C18). *)
 From OM Require Import Base.Lists Base.Wire Maths.Dense Maths.DenseModel.
 Local Open Scope Z_scope.
